@@ -73,17 +73,17 @@ theorem inRange_u64_of (t : IntTy) (v : Int) (h : t.inRange v = true) (hu : isUn
 
 theorem scalar_int (ext : Ext) (T t : IntTy) (v : Int) (h : T.inRange v = true) :
     ∃ lv, interpScalar ext (intDataType T) (.int t v) = .ok lv := by
-  cases T <;> simp [interpScalar, intDataType, convLeaf, tryInto, h, bind, Except.bind, pure, Except.pure]
+  cases T <;> simp [interpScalar_eq_old, normErr_ok_iff, interpScalarOld, intDataType, convLeaf, tryInto, h, bind, Except.bind, pure, Except.pure]
 
 theorem scalar_char (ext : Ext) (T : IntTy) (c : Nat) (h : T.inRange c = true) :
     ∃ lv, interpScalar ext (intDataType T) (.char c) = .ok lv := by
-  cases T <;> simp [interpScalar, intDataType, convLeaf, tryInto, h, bind, Except.bind, pure, Except.pure]
+  cases T <;> simp [interpScalar_eq_old, normErr_ok_iff, interpScalarOld, intDataType, convLeaf, tryInto, h, bind, Except.bind, pure, Except.pure]
 
 theorem scalar_string (ext : Ext) (dt : DataType) (x : SVal) (s : String)
     (hdt : dt = .utf8 ∨ dt = .largeUtf8 ∨ ∃ k v, dt = .dictionary k v ∧ (v = .utf8 ∨ v = .largeUtf8))
     (hs : scalarToString ext x = some s) :
     ∃ lv, interpScalar ext dt x = .ok lv := by
-  rcases hdt with rfl | rfl | ⟨k, v, rfl, rfl | rfl⟩ <;> simp [interpScalar, interpDictStr, hs]
+  rcases hdt with rfl | rfl | ⟨k, v, rfl, rfl | rfl⟩ <;> simp [interpScalar_eq_old, normErr_ok_iff, interpScalarOld, interpDictStr, dictValue, liftO, hs]
 
 theorem isUtf8_iff (d : DataType) : isUtf8 d = true ↔ d = .utf8 := by cases d <;> simp [isUtf8]
 theorem isLargeUtf8_iff (d : DataType) : isLargeUtf8 d = true ↔ d = .largeUtf8 := by cases d <;> simp [isLargeUtf8]
@@ -140,16 +140,16 @@ theorem leaf_interp (ext : Ext) (o : Options) (b : Bool) {ty a : DataType} (hp :
     case unit => exact absurd hx.symm hna
     case unitStruct => exact absurd hx.symm hna
     case bool bb =>
-      subst hx; rw [hnostr rfl]; simp [interpScalar, convLeaf, bind, Except.bind, pure, Except.pure]
+      subst hx; rw [hnostr rfl]; simp [interpScalar_eq_old, normErr_ok_iff, interpScalarOld, convLeaf, bind, Except.bind, pure, Except.pure]
     case int t v =>
       subst hx
       have : dt = intDataType t := hnostr (by cases t <;> rfl)
       rw [this]
       exact scalar_int ext t t v (by simpa [sampleOK] using hok)
     case f32 bits =>
-      subst hx; rw [hnostr rfl]; simp [interpScalar, convLeaf, bind, Except.bind, pure, Except.pure]
+      subst hx; rw [hnostr rfl]; simp [interpScalar_eq_old, normErr_ok_iff, interpScalarOld, convLeaf, bind, Except.bind, pure, Except.pure]
     case f64 bits =>
-      subst hx; rw [hnostr rfl]; simp [interpScalar, convLeaf, bind, Except.bind, pure, Except.pure]
+      subst hx; rw [hnostr rfl]; simp [interpScalar_eq_old, normErr_ok_iff, interpScalarOld, convLeaf, bind, Except.bind, pure, Except.pure]
     case char c =>
       subst hx; rw [hnostr rfl]
       have hc : c < 1114112 := by simpa [sampleOK] using hok
@@ -167,7 +167,7 @@ theorem leaf_interp (ext : Ext) (o : Options) (b : Bool) {ty a : DataType} (hp :
         | ok lv => exact ⟨lv, rfl⟩
         | error e => rw [hi] at hdate; cases hdate
     case bytes bs =>
-      subst hx; rw [hnostr rfl]; simp [interpScalar]
+      subst hx; rw [hnostr rfl]; simp [interpScalar_eq_old, normErr_ok_iff, interpScalarOld]
   · -- UInt64 for unsigned calls
     obtain ⟨h1, h2⟩ := hp
     have hty := (isUInt64DT_iff ty).mp h1
@@ -210,10 +210,10 @@ theorem leaf_interp (ext : Ext) (o : Options) (b : Bool) {ty a : DataType} (hp :
     rw [hnostr rfl]
     cases x <;> simp only [leafTypeOf, Option.some.injEq, reduceCtorEq] at hx <;> subst hx <;>
       simp only [isInt, isSigned, isUnsigned, isFloat3264, Bool.or_self, Bool.false_eq_true, or_self, reduceCtorEq] at h2
-    case int t v => simp [interpScalar, convLeaf, bind, Except.bind, pure, Except.pure]
-    case f32 bits => simp [interpScalar, convLeaf, bind, Except.bind, pure, Except.pure]
-    case f64 bits => simp [interpScalar, convLeaf, bind, Except.bind, pure, Except.pure]
-    case char c => simp [interpScalar, convLeaf, bind, Except.bind, pure, Except.pure]
+    case int t v => simp [interpScalar_eq_old, normErr_ok_iff, interpScalarOld, convLeaf, bind, Except.bind, pure, Except.pure]
+    case f32 bits => simp [interpScalar_eq_old, normErr_ok_iff, interpScalarOld, convLeaf, bind, Except.bind, pure, Except.pure]
+    case f64 bits => simp [interpScalar_eq_old, normErr_ok_iff, interpScalarOld, convLeaf, bind, Except.bind, pure, Except.pure]
+    case char c => simp [interpScalar_eq_old, normErr_ok_iff, interpScalarOld, convLeaf, bind, Except.bind, pure, Except.pure]
     case str s =>
       rcases strType_cases o s with h | h
       · rw [h] at h2; rcases string_type_cases o with h' | h' <;> rw [h'] at h2 <;>
